@@ -77,6 +77,8 @@ type scenario struct {
 	lastRate  atomic.Int64
 	closed atomic.Bool
 	stream1Gone atomic.Bool
+	extraGates  []*obs.RTPGate // gates of the lifecycle goroutine's short-lived streams
+	burst       bool
 }
 
 func buildScenario(c *vf.Case) (*scenario, bool) {
@@ -170,6 +172,9 @@ func (s *scenario) writer(r *vf.Rand, st, n int, wg *sync.WaitGroup) {
 		}
 		if s.hasBWE && s.bubble && k%4 == 0 {
 			time.Sleep(time.Duration(r.Range(1, 10)) * time.Millisecond)
+		}
+		if s.burst && k%16 != 0 {
+			continue // back-to-back writes: allocations of the shared counters collide
 		}
 		pause(r)
 	}
@@ -308,7 +313,10 @@ func (s *scenario) lifecycle(r *vf.Rand, doClose bool, wg *sync.WaitGroup) {
 		extra++
 		lo := zoo.Info(zoo.StreamOpts{SSRC: extra, PT: 96, Nack: true, TWCCID: twccID, FEC: true, RTX: true})
 		ro := zoo.Info(zoo.StreamOpts{SSRC: extra + 100, PT: 96, Nack: true, PLI: true, TWCCID: twccID})
-		w := s.i.BindLocalStream(lo, obs.NewRTPGate(s.clk, extra))
+		eg := obs.NewRTPGate(s.clk, extra)
+		eg.NoCopy = true
+		s.extraGates = append(s.extraGates, eg)
+		w := s.i.BindLocalStream(lo, eg)
 		rd := s.i.BindRemoteStream(ro, obs.NewFeed(s.clk))
 		h := rtp.Header{Version: 2, PayloadType: 96, SequenceNumber: 1, SSRC: extra}
 		ext, _ := (&rtp.TransportCCExtension{TransportSequence: uint16(s.twcc.Add(1))}).Marshal()
@@ -333,7 +341,22 @@ func (s *scenario) lifecycle(r *vf.Rand, doClose bool, wg *sync.WaitGroup) {
 			}
 		}
 		s.closed.Store(true)
+		// public entry points of the members' factories keep being called while Close runs
+		var hw sync.WaitGroup
+		for _, b := range s.members {
+			if b.PacingFac != nil {
+				hw.Add(1)
+				go func() {
+					defer hw.Done()
+					for k := 0; k < 300; k++ {
+						b.PacingFac.SetRate("pc", 50_000_000+k)
+					}
+				}()
+				runtime.Gosched()
+			}
+		}
 		_ = s.i.Close()
+		hw.Wait()
 	}
 }
 
@@ -342,9 +365,19 @@ func (s *scenario) drive(doClose bool) (goroutines int) {
 	var wg sync.WaitGroup
 	nW, nR, nK := r.Range(1, 4), r.Range(1, 4), r.Range(1, 3)
 	ops := r.Range(30, 120)
+	if s.members[0].Kind == zoo.TWCCHeaderExt && r.Bool() {
+		// the member next to the transport allocates transport-wide sequence numbers for every
+		// packet of every writer: make the allocations collide
+		s.burst = true
+		nW, ops = 4, r.Range(200, 400)
+	}
 	for i := 0; i < nW; i++ {
 		wg.Add(1)
-		go s.writer(r.Fork(), r.Pick(0, 0, 1), ops, &wg)
+		st := r.Pick(0, 0, 1)
+		if s.burst {
+			st = 0
+		}
+		go s.writer(r.Fork(), st, ops, &wg)
 	}
 	for i := 0; i < nR; i++ {
 		wg.Add(1)
@@ -398,6 +431,7 @@ func run(c *vf.Case) {
 				time.Sleep(10 * time.Millisecond)
 			}
 		}
+		s.checkTransportSequenceNumbers()
 		if !doClose {
 			s.checkConservation()
 			_ = s.i.Close()
@@ -438,9 +472,19 @@ func run(c *vf.Case) {
 	select {
 	case <-done:
 	case <-time.After(20 * time.Second):
-		buf := make([]byte, 1<<20)
-		buf = buf[:runtime.Stack(buf, true)]
-		c.Inconclusive("real-time scenario did not finish within 20 s wall clock:\n%s", trim(string(buf)))
+		// the wall clock only triggers the inspection; the verdict comes from goroutine states:
+		// library goroutines parked on a mutex with identical stacks in two dumps 3 s apart while
+		// nothing is runnable inside the library = lock-order deadlock; anything else is inconclusive
+		buf := make([]byte, 4<<20)
+		a := string(buf[:runtime.Stack(buf, true)])
+		time.Sleep(3 * time.Second)
+		b := string(buf[:runtime.Stack(buf, true)])
+		if da, db := vf.MutexWaiters(a), vf.MutexWaiters(b); da != "" && da == db {
+			c.Violation("deadlock/mutex-never-released/"+vf.FirstLibFrame(da),
+				"real-time scenario did not finish; library goroutines wait for mutexes that no runnable goroutine can release (identical in two dumps 3 s apart):\n%s", trim(da))
+			c.ExitResume()
+		}
+		c.Inconclusive("real-time scenario did not finish within 20 s wall clock:\n%s", trim(b))
 		c.ExitResume()
 	}
 }
@@ -501,6 +545,39 @@ func (s *scenario) checkConservation() {
 }
 
 var _ = fmt.Sprintf
+
+// checkTransportSequenceNumbers: when the TWCC header-extension interceptor sits next to the
+// transport, every packet of every TWCC-negotiated stream reaching a gate was numbered by its
+// one shared counter, whichever goroutine wrote it: no number may be handed out twice (fewer
+// than 65536 packets per scenario, so a repeat is a lost update, not a wrap).
+func (s *scenario) checkTransportSequenceNumbers() {
+	if s.members[0].Kind != zoo.TWCCHeaderExt {
+		return
+	}
+	seen := map[uint16]int64{}
+	total := 0
+	for _, g := range append([]*obs.RTPGate{s.lgate[0]}, s.extraGates...) {
+		for _, ev := range g.Events() {
+			ext := ev.Header.GetExtension(twccID)
+			if len(ext) < 2 {
+				continue
+			}
+			var tcc rtp.TransportCCExtension
+			if tcc.Unmarshal(ext) != nil {
+				continue
+			}
+			total++
+			if first, dup := seen[tcc.TransportSequence]; dup && total < 60000 {
+				s.c.Violation("lost-update/twcc-header-extension/transport-sequence-number-allocated-twice",
+					"interceptors %s: transport-wide sequence number %d was put on two packets (logical stamps %d and %d) written by concurrent goroutines; %d numbered packets so far",
+					s.desc, tcc.TransportSequence, first, ev.Stamp, total)
+				return
+			}
+			seen[tcc.TransportSequence] = ev.Stamp
+		}
+	}
+	s.c.Add("transport_sequence_numbers_checked_unique", int64(total))
+}
 
 // bweCloseOverlap: a sender paced in virtual time whose TWCC feedback alternates between
 // "arrivals as spaced as departures" and "arrivals twice as far apart" so that the estimator
